@@ -36,6 +36,8 @@ def _set_by_path(obj: Any, path: str, value: Any) -> None:
 
             if key not in cur or not isinstance(cur[key], list):
                 cur[key] = []
+            if idx < -len(cur[key]):
+                return  # negative index before the start of the list → no-op
             _ensure_list_size(cur[key], idx)
 
             if is_last:
